@@ -563,6 +563,12 @@ def s_apply_as_function(ctx):
         ctx.check("C07.as_function.function_uses_the_versions_in_force_where_the_nodes_were", z3.And(term(imp[""]) == want_default, term(imp["custom"]) == v_cust), CL_INIT)
 
 
+        ctx.check("C07.as_function.import_table_is_listed_in_the_order_of_the_enclosing_tables_under_every_set_iteration_order",
+                  list(imp) == ["", "custom"],
+                  "C14: 'the same serialized result in every process - regardless of hash randomisation' — the function's opset_import entries are "
+                  "serialized in table order; the engine explores every iteration order of every set")
+
+
 SCENARIOS.append(Scenario("C07.as_function.apply", s_apply_as_function, F("RewriteRuleSet._apply_to_graph_or_function"),
                           trusted=["_copy_for_function copies the given nodes (its own contract is not stated)", "ir.Graph / ir.Function constructors (onnx_ir)"]))
 
